@@ -54,7 +54,7 @@ const DefaultBufSize = 128 << 10
 // NewScanner initializes and returns a new Scanner reading through a
 // DefaultBufSize sliding window.
 func NewScanner(file string, r io.Reader) *Scanner {
-	buf := make([]byte, DefaultBufSize)
+	buf := make([]byte, DefaultBufSize, DefaultBufSize+1)
 	return newScannerBuf(file, r, buf)
 }
 
@@ -72,7 +72,7 @@ func NewScanner(file string, r io.Reader) *Scanner {
 // attacker controls, in a parser whose job is to survive untrusted phylum
 // source.
 func NewScannerString(file, src string) *Scanner {
-	return newScannerBuf(file, strings.NewReader(src), make([]byte, len(src)))
+	return newScannerBuf(file, strings.NewReader(src), make([]byte, len(src), len(src)+1))
 }
 
 // SetPath associates a physical location (e.g. filesystem path) with s to aid
@@ -109,6 +109,42 @@ func (s *Scanner) Ignore() {
 // EmitToken or Ignore.
 func (s *Scanner) Text() string {
 	return string(s.buf[s.start:s.next])
+}
+
+// ErrTokenTooLong is the error a Scanner reports when the token being scanned
+// fills the sliding window and more input follows.
+var ErrTokenTooLong = errors.New("token exceeds maximum allowable size")
+
+// Overrun reports whether the text scanned since the last call to EmitToken
+// or Ignore fills the whole sliding window while the input goes on.  No
+// further rune can be scanned into such a token, so Peek and the Accept
+// methods report false exactly as they do at the end of a token; a caller that
+// is about to emit a token of unbounded length must ask Overrun first, or it
+// emits a truncated token and scans the remainder as if it were new source
+// text.  A token that ends together with the input is not overrun.
+func (s *Scanner) Overrun() bool {
+	if len(s.peek) > 0 || s.start != 0 || len(s.buf) == 0 || utf8.FullRune(s.buf[s.next:]) {
+		return false
+	}
+	// The token occupies everything read so far, up to a rune the window cuts
+	// in two.  Whether the input has ended is only known once a read came back
+	// empty, so look one byte ahead; the constructors leave room for that byte
+	// behind the window.
+	for tries := 0; tries < 8 && s.readErr == nil; tries++ {
+		end := len(s.buf)
+		if end == cap(s.buf) {
+			s.buf = append(s.buf, 0)[:end]
+		}
+		n, err := s.r.Read(s.buf[end : end+1])
+		if n > 0 {
+			s.buf = s.buf[:end+1]
+			return true
+		}
+		if err != nil {
+			s.readErr = err
+		}
+	}
+	return false
 }
 
 // Rune returns the current unicode rune that is being scanned.  The rune
@@ -393,7 +429,7 @@ func (s *Scanner) checkExtend() error {
 	if s.next == len(s.buf) {
 		// If this is happening then we haven't seen EOF and the extension
 		// routine was unable to do anything to extend the buffer.
-		return errors.New("token exceeds maximum allowable size")
+		return ErrTokenTooLong
 	}
 	return nil
 }
